@@ -366,12 +366,30 @@ def run(ctx):
     if ctx.tier != 'quick':
         check_one_shot(ctx, prog, 'DerivedActorRef::<TMessage>::send_after', 'SEND')
         check_interval(ctx, prog, 'DerivedActorRef::<TMessage>::send_interval')
+    # "a timer whose target is no longer running delivers nothing": the send a timer performs is refused by a target that left the running states
+    import C12_target
+    import C12_target_replay
+    import mailbox as mb
+    C12_target.check(ctx, mb.load()[0])
+    try:
+        r = C12_target_replay.run_native()
+        ctx.translator_validated += 1
+        ctx.extra['target_native'] = r
+        if r['violated']:
+            rec = {'name': 'target.native_battery', 'group': 'C12.target', 'solver_s': 0.0, 'status': 'cex'}
+            ctx.obligations.append(rec)
+            ctx.handle_cex(rec['name'], 'C12.target.native', None, lambda _m: {'replayed': True, 'detail': 'real timers against a target parked in post_stop: %s' % r, 'replay': {'which': 'target'}}, rec)
+    except RuntimeError as e:
+        ctx.inconclusive.append('target native scenario unavailable: %s' % str(e)[-300:])
 
 
 def replay_file(path):
     import C12_replay
     import json
     d = json.load(open(path))
+    if d['replay'].get('which') == 'target':
+        import C12_target_replay
+        return C12_target_replay.replay_from_json(d)
     r = C12_replay.replay(d['replay']['which'])
     print(r['detail'])
     return 1 if r['replayed'] else 0
